@@ -17,6 +17,8 @@ pub mod ex_seq;
 pub mod ex_enum;
 #[path = "/repo/examples/nft-consecutive/src/contract.rs"]
 pub mod ex_cons;
+#[path = "/repo/examples/nft-access-control/src/contract.rs"]
+pub mod ex_acx;
 
 #[contracttype]
 pub enum XKey {
@@ -69,6 +71,11 @@ pub enum Flavour {
     Exp,
     Enum,
     Cons,
+    /// examples/nft-access-control: `Base` with explicit-id minting behind a "minter" role and burning
+    /// behind a "burner" role. The simulator gives the admin account the minter role and EVERY actor
+    /// the burner role, so the contract must behave exactly like the explicit-id flavour (the role is
+    /// an additional condition, never a replacement of the owner / approved / operator rule).
+    Acx,
 }
 
 impl Flavour {
@@ -78,6 +85,8 @@ impl Flavour {
             Flavour::Exp => "exp",
             Flavour::Enum => "enum",
             Flavour::Cons => "cons",
+            // modelled by the explicit-id flavour (see above)
+            Flavour::Acx => "exp",
         }
     }
 }
@@ -140,6 +149,22 @@ impl Sim {
             Flavour::Exp => e.register(ExplicitNft, (uri, name, sym, admin)),
             Flavour::Enum => e.register(ex_enum::ExampleContract, (uri, name, sym, admin)),
             Flavour::Cons => e.register(ex_cons::ExampleContract, (uri, name, sym, admin)),
+            Flavour::Acx => {
+                let c = e.register(ex_acx::ExampleContract, (uri, name, sym, admin.clone()));
+                e.mock_all_auths();
+                let grant = |who: &Address, role: &str| {
+                    let _: () = e.invoke_contract(
+                        &c,
+                        &soroban_sdk::Symbol::new(&e, "grant_role"),
+                        args(&e, [who.into_val(&e), soroban_sdk::Symbol::new(&e, role).into_val(&e), admin.into_val(&e)]),
+                    );
+                };
+                grant(&admin, "minter");
+                for i in 0..N {
+                    grant(u.a(i), "burner");
+                }
+                c
+            }
         };
         Sim { e, u, tok, fl, now: start, min_temp, max_ttl }
     }
@@ -181,6 +206,7 @@ impl Sim {
                             Flavour::Exp => <ExplicitNft as NonFungibleToken>::owner_of(e, j),
                             Flavour::Enum => <ex_enum::ExampleContract as NonFungibleToken>::owner_of(e, j),
                             Flavour::Cons => <ex_cons::ExampleContract as NonFungibleToken>::owner_of(e, j),
+                            Flavour::Acx => <ex_acx::ExampleContract as NonFungibleToken>::owner_of(e, j),
                         });
                         if j == hi || j - start >= 63 {
                             break;
@@ -324,6 +350,7 @@ impl Sim {
         let e = &self.e;
         let (func, argv): (&str, soroban_sdk::Vec<Val>) = match kind {
             "mint" => ("mint", args(e, [self.ad(a[0])])),
+            "mint_id" if self.fl == Flavour::Acx => ("mint", args(e, [self.ad(a[0]), v(e, id), self.ad(ADMIN)])),
             "mint_id" => ("mint_id", args(e, [self.ad(a[0]), v(e, id)])),
             "batch_mint" => ("batch_mint", args(e, [self.ad(a[0]), v(e, n)])),
             "transfer" => ("transfer", args(e, [self.ad(a[0]), self.ad(a[1]), v(e, id)])),
